@@ -131,6 +131,39 @@ CHECKS = {
    note="sampled trees (depth <= 3); number formatting itself belongs to C10/C11; values are compared as JSON numbers (3.0 may come back as 3).",
    technique="TLA+ JSON grammar as independent reader; TLC batch oracle over recorded stringify/parse/stringify events",
    design="6 (C08)"),
+ "C09": dict(
+   text="The numeral grammar, the exact value D*10^k and the admissible results are an explicit TLA+ specification (QDigitParse on "
+        "base-10^4 naturals): consumed length, malformed shapes, exact Natural / Integer when the integer fits, otherwise sign and "
+        "|D*10^k - m*2^e| <= 1.5 ulp verified relationally (only small multiplications, subtraction, comparison), infinity / rejection "
+        "only beyond the largest finite double. Digit::StringToNumber is run (exact-size buffers, ASan, 3 widths) on every string "
+        "<= 5/6 over {+ - 0 1 9 . e} (all paths of the numeral automaton), the 2^53/2^63/2^64 boundaries, exact halfway points between "
+        "adjacent doubles in ~200 binades (up to ~1100 digits), the DBL_MAX and subnormal neighbourhoods, 17..800-digit mantissas, random "
+        "and terminated numerals, malformed shapes; TLC judges every event.",
+   note="sampled + small-alphabet exhaustive; candidate numerals come from Python integers, every judgement is TLC's; '1.', '.5', a dot "
+        "after the exponent and hex numerals are under-specified and accepted either way; one known finding (underflow reported as NaN).",
+   technique="TLA+ numeral specification with big-natural arithmetic; TLC relational batch oracle over recorded conversions",
+   design="6 (C09), appendix A.4"),
+ "C10": dict(
+   text="The reference text is an explicit TLA+ specification (QDigitFormat): exact decimal expansion of m*2^e on base-10^4 naturals, "
+        "%.{p}f / trimmed %.{p}f / %.{p}g with half-even rounding on the exact digits, inf/nan, exact integers. Digit::NumberToString "
+        "is run into a non-empty stream for the _Float16 instantiation of the same template (every finite value in the thorough tier, "
+        "every 13th in quick, x 3 formats x precisions), for doubles/floats at binade edges, powers of ten +-1 ulp, exact ties, problem "
+        "values and random patterns x (format, precision 0..20, 40), and for integers of all widths incl. minimum values; TLC judges "
+        "every event and itself classifies mismatches into the three recorded root-cause classes (precision 0; cut rounded in the wrong "
+        "direction; lost integer zeros) - anything else is a violation.",
+   note="all 2^32 floats / 2^64 doubles are out of reach of TLC (exhaustive only for the 16-bit instantiation); three known-finding "
+        "classes are recorded rather than repaired (approximate formatter, DigitTest pins its outputs).",
+   technique="TLA+ exact-expansion formatting specification; TLC batch oracle with spec-side defect classification",
+   design="6 (C10)"),
+ "C11": dict(
+   text="Doubles from 8 generators (uniform bit patterns, uniform exponents, subnormals, powers of two/ten +-ulps, range ends, zeros) go "
+        "through NumberToString(17) -> StringToNumber on exact-size buffers under ASan; every value is compared bit for bit, and every "
+        "k-th event plus every failure is explained by TLC with the two specifications (the text is the reference 17-digit expansion - "
+        "QDigitFormat; the parse result is admissible for that text - QDigitParse), so that a failure is attributed to the formatter, "
+        "the parser or their combination. Floats: 9 digits over a sweep of bit patterns.",
+   note="the bulk comparison (200k / 2M doubles, 1M / 16M floats) is a harness bit comparison; TLC validates the sampled events (800 / 5000).",
+   technique="round-trip recorded from the code; TLC explains sampled events with the formatting and parsing specifications",
+   design="6 (C11)"),
 }
 PENDING = "not yet claimed in this revision: its specification and conformance harness are still being built (DESIGN.md section 6 describes the plan)"
 m = {
